@@ -21,6 +21,24 @@ NEEDS = {
  "C15": ("C15", "checksum-failing damage in the LAST manifest record (damage check moved to the top of the record loop, never evaluated after the final skipped record)"),
  "C16": ("C16", "last log write torn to <= 7 bytes, recovery with log reuse, a write acknowledged after recovery, reopen (partial header counted as consumed: torn tail looks like a clean end)"),
  "C17": ("C17", "close while a table compaction with a memtable flush inside its loop is running; another open during the close (Drop waits for background work with `if` instead of `while`)"),
+ # ---- second wave (each agent was told which change of the first wave to stay away from)
+ "C01b": ("C01", "two overlapping level-0 files, the OLDER one entirely past the end of the initial compaction range and reachable only through the newer one; sub-range compact_range or a narrow seed file (get_overlapping_compaction_inputs tests 'file after range' against the requested end instead of the widened one)"),
+ "C02b": ("C02", "crash right after the create of the new WAL during a memtable rotation: recovery replays the full old WAL and the empty new one (last sequence taken from the WAL replayed last instead of the maximum)"),
+ "C03b": ("C03", "get_snapshot / new_iterator while a writer is between releasing the mutex and finishing the memtable insert (prev_sequence_number published before the unlocked section)"),
+ "C04b": ("C04", "backward movement, then seek landing directly on a live entry, then prev, with >= 2 children one of them wholly below the target (MergingIterator::seek does not set the direction)"),
+ "C05b": ("C05", "two table-cache misses on different files at the same instant (LRUCache::new_id reads and writes the counter in two critical sections: two tables share a block-cache partition id)"),
+ "C06b": ("C06", "plain get while a multi-key writer is between its first memtable insert and the publication (DB::get looks up with MAX_SEQUENCE_NUMBER)"),
+ "C07c": ("C07", "tombstone for a key that is exactly the FIRST user key of a file two or more levels deeper, compacted without that file (is_base_level_for_key compares internal keys)"),
+ "C08b": ("C08", "one transient failure of the size query made while the last WAL is reopened for appending, then > 32 KiB appended without a flush (LogWriter::new: len().unwrap_or_default())"),
+ "C09b": ("C09", "manual table compaction in its merge phase while a writer rotates the memtable: the flush inside the loop wakes the compact_range caller (worker holds the request mutex across compact_tables: ABBA deadlock)"),
+ "C10b": ("C10", "automatic trivial-move compaction (the delete record of the move names the parent level: the file is in two levels, also after reopen)"),
+ "C11b": ("C11", "crash leftovers or deferred-deletion leftovers + a reopen on the pure reuse path (manifest and last WAL reused): remove_obsolete_files only runs when a new manifest snapshot is written"),
+ "C12b": ("C12", "log closed with 1..6 bytes left in its last block, reopened for appending (block offset set to 0: no trailer padding, everything appended is off the block grid)"),
+ "C13b": ("C13", "level-0 table iterator walked backwards past its first entry and then sent forward into the first block (stale data_block_handle: lands on the second block)"),
+ "C14b": ("C14", "several versions of one user key kept by snapshots, an older version in a data block of a later 2 KiB filter range (filter only told about a user key when it changes)"),
+ "C15b": ("C15", "a byte inside the filter block of a table file altered (filter block read without checksum verification: false negatives, older versions resurface)"),
+ "C16b": ("C16", "torn WAL tail with reuse_log_files: manifest reused, WAL not reused, replay fills no memtable (the table written from the replay is never recorded and gets deleted)"),
+ "C17b": ("C17", "open between destroy_database's unlock and its unlink of LOCK, then a third open (lock dropped before LOCK is unlinked)"),
 }
 
 def results():
@@ -43,6 +61,8 @@ def main():
         dst = f"/verif/seeded/{mid}"
         os.makedirs(dst, exist_ok=True)
         shutil.copy(src + "/patch.diff", dst + "/patch.diff")
+        if os.path.exists(src + "/verify.out"):
+            shutil.copy(src + "/verify.out", dst + "/verify.out")
         for name in ("mut_demo.rs", "notes.md"):
             if os.path.exists(f"{src}/{name}"):
                 shutil.copy(f"{src}/{name}", f"{dst}/{name}")
